@@ -13,6 +13,36 @@ def body(ctx):
     ctx.bound('method', 'induction over the poll loop: one iteration from every loop state satisfying the invariant; two open channels plus one opened during the iteration; batch of 0 or 2 events; every high/low water mark with low <= high')
     ctx.assume("the event handler is abstract: it may change the amount of queued data arbitrarily, open a channel, or fail; that a re-registered source with pending messages produces a wake-up is mio_extras' behaviour; blocking of real senders on the bounded channel is std/mio_extras'")
     ctx.assume("low water mark <= high water mark")
+    viol = registration(ctx, prog)
+    slot_bound(ctx, prog, viol)
+    ctx.replay_timeout = 180
+    # "transmitted exactly once and in order" through a stall: the write loop under every short-write / would-block pattern and the
+    # hand-over of whole messages into the buffer (the obligations of C01, decided here as well)
+    import c01
+    v01 = []
+    c01.write_loop(ctx, prog, v01)
+    c01.handover(ctx, prog, v01)
+    if v01:
+        ctx.report('outbound-stream', f"{len(v01)} write-path obligations violated, e.g. {str(v01[0])[:250]}; confirmed by the native write-path differential", {'solver_counterexamples': [str(v)[:300] for v in v01[:6]]},
+                   c01.NATIVE, inject_into='src/io_loop/mod.rs', profiles=('dev',), hang_is_violation=True, panic_is_violation=True)
+    report_registration(ctx, viol)
+    if False:
+        # the flag that tells allocate_channel whether channels are being polled must follow every de-/re-registration: a channel
+        # opened after a throttling episode is over must be polled
+        ctx.report('late-channel-never-polled', f"registration invariant: {str([v for v in viol if v[0] == 'registration'][0])[:250]}; native scenario: throttle, resume, then open a channel and send on it",
+                   {'solver_counterexamples': [str(v)[:300] for v in viol[:4]]}, LATE_TEST, inject_into='src/io_loop/mod.rs', profiles=('dev',), hang_is_violation=True)
+    if viol:
+        ctx.report('backpressure', f"{len(viol)} obligations violated, e.g. {str(viol[0])[:250]}; confirmed by the native throttling scenario on the real poll loop", {'solver_counterexamples': [str(v)[:300] for v in viol[:6]]},
+                   NATIVE, inject_into='src/io_loop/mod.rs', profiles=('dev',), hang_is_violation=True)
+    elif ctx.tier == 'thorough':
+        rp = ctx.replay_native('throttling-scenario', NATIVE, inject_into='src/io_loop/mod.rs', profiles=('dev', 'release'))
+        ctx.extra['native_throttling_scenario'] = {k: v.get('tail', '')[-200:] for k, v in rp['profiles'].items()}
+        if rp['reproduced']:
+            ctx.inconclusive.append('native throttling scenario disagrees with a passing solver verdict: ' + str(rp)[:400])
+
+
+def registration(ctx, prog):
+    """inductive step of the poll loop + allocate_channel: channels are polled iff not throttled, including channels opened later"""
     viol = []
     h, res = loop_iteration(ctx, prog)
     n = 0
@@ -43,25 +73,16 @@ def body(ctx):
             viol.append(('registration', label, tr, ctx.explain(m, conds)[:3]))
     ctx.extra['loop_paths'] = n
     allocate(ctx, prog, viol)
-    slot_bound(ctx, prog, viol)
-    ctx.replay_timeout = 180
-    # "transmitted exactly once and in order" through a stall: the write loop under every short-write / would-block pattern and the
-    # hand-over of whole messages into the buffer (the obligations of C01, decided here as well)
-    import c01
-    v01 = []
-    c01.write_loop(ctx, prog, v01)
-    c01.handover(ctx, prog, v01)
-    if v01:
-        ctx.report('outbound-stream', f"{len(v01)} write-path obligations violated, e.g. {str(v01[0])[:250]}; confirmed by the native write-path differential", {'solver_counterexamples': [str(v)[:300] for v in v01[:6]]},
-                   c01.NATIVE, inject_into='src/io_loop/mod.rs', profiles=('dev',), hang_is_violation=True, panic_is_violation=True)
-    if viol:
-        ctx.report('backpressure', f"{len(viol)} obligations violated, e.g. {str(viol[0])[:250]}; confirmed by the native throttling scenario on the real poll loop", {'solver_counterexamples': [str(v)[:300] for v in viol[:6]]},
-                   NATIVE, inject_into='src/io_loop/mod.rs', profiles=('dev',), hang_is_violation=True)
-    elif ctx.tier == 'thorough':
-        rp = ctx.replay_native('throttling-scenario', NATIVE, inject_into='src/io_loop/mod.rs', profiles=('dev', 'release'))
-        ctx.extra['native_throttling_scenario'] = {k: v.get('tail', '')[-200:] for k, v in rp['profiles'].items()}
-        if rp['reproduced']:
-            ctx.inconclusive.append('native throttling scenario disagrees with a passing solver verdict: ' + str(rp)[:400])
+    return viol
+
+
+def report_registration(ctx, viol):
+    if any(v[0] in ('registration', 'allocate') for v in viol):
+        # the flag that tells allocate_channel whether channels are being polled must follow every de-/re-registration: a channel
+        # opened after a throttling episode is over must be polled
+        first = [v for v in viol if v[0] in ('registration', 'allocate')][0]
+        ctx.report('late-channel-never-polled', f"registration invariant: {str(first)[:250]}; native scenario: throttle, resume, then open a channel and send on it",
+                   {'solver_counterexamples': [str(v)[:300] for v in viol[:4]]}, LATE_TEST, inject_into='src/io_loop/mod.rs', profiles=('dev',), hang_is_violation=True)
 
 
 def allocate(ctx, prog, viol):
@@ -108,6 +129,47 @@ def slot_bound(ctx, prog, viol):
         if m is not None:
             viol.append(('bound',))
 
+
+LATE_TEST = r'''
+use super::*;
+#[test]
+fn verif_replay_c18_late_channel() {
+    let mut bad: Vec<String> = Vec::new();
+    for episode in [false, true].iter() {
+        let mut io = IoLoop::new(crate::ConnectionTuning::default()).unwrap();
+        io.inner.chan_slots.set_channel_max(100);
+        let (ch0_slot, mut h0) = Channel0Slot::new(8);
+        io.poll.register(&ch0_slot.alloc_chan_req_rx, ALLOC_CHANNEL, mio::Ready::readable(), mio::PollOpt::edge()).unwrap();
+        let (slot, _h1) = ChannelSlot::new(8, 1);
+        io.poll.register(&slot.rx, mio::Token(1), mio::Ready::readable(), mio::PollOpt::edge()).unwrap();
+        io.inner.chan_slots.insert(Some(1), |_| Ok((slot, ()))).unwrap();
+        if *episode {
+            // a back-pressure episode that is over: channels were de-registered and are registered again
+            io.inner.deregister_nonzero_channels(&io.poll).unwrap();
+            io.inner.reregister_nonzero_channels(&io.poll).unwrap();
+        }
+        let t = std::thread::spawn(move || {
+            let mut h = h0.allocate_channel(Some(2)).unwrap();
+            h.call_nowait(amq_protocol::protocol::basic::AMQPMethod::Ack(amq_protocol::protocol::basic::Ack { delivery_tag: 1, multiple: false })).unwrap();
+            std::thread::sleep(std::time::Duration::from_millis(600));
+            (h0, h)
+        });
+        let mut events = mio::Events::with_capacity(16);
+        let (mut served, mut polled) = (false, false);
+        let t0 = std::time::Instant::now();
+        while t0.elapsed() < std::time::Duration::from_millis(1500) && !polled {
+            io.poll.poll(&mut events, Some(std::time::Duration::from_millis(100))).unwrap();
+            for ev in &events {
+                if ev.token() == ALLOC_CHANNEL { io.inner.allocate_channel(&ch0_slot, &io.poll).unwrap(); served = true; }
+                else if ev.token() == mio::Token(2) { polled = true; }
+            }
+        }
+        if !served || !polled { bad.push(format!("after_episode={}:allocation_served={}:new_channel_polled={}", episode, served, polled)); }
+        let _ = t.join();
+    }
+    if bad.is_empty() { println!("VERIF-REPLAY-OK"); } else { println!("VERIF-REPLAY-VIOLATION late-channel-never-polled {}", bad.join(";")); }
+}
+'''
 
 NATIVE = r'''
 use super::*;
